@@ -41,7 +41,8 @@ pub fn exec(r: &Rec) -> Out {
 pub fn generate(tier: &str, seed: u64) -> Vec<Rec> {
     let mut base = Vec::new();
     // kernels + vector ops of C08 (the kernel records name a backend in ps[0]; 8001/8002 have no backend: skip them)
-    base.extend(c08::generate(tier, seed.wrapping_add(8)).into_iter().filter(|r| r.code >= 8010));
+    // big-accumulator records: keep those generated for the FFT64 family (values inside the i64 domain common to both families)
+    base.extend(c08::generate(tier, seed.wrapping_add(8)).into_iter().filter(|r| r.code >= 8010 && (r.code < 8201 || r.ps[0] <= 2)));
     base.extend(c09::generate(tier, seed.wrapping_add(9)));
     // DFT-domain ops: force the FFT64 magnitude domain for every record (be = 1 at generation time)
     base.extend(c07::generate(tier, seed.wrapping_add(7)).into_iter().filter(|r| r.code < 7100 && r.ps[0] <= 2));
